@@ -2,7 +2,7 @@ import TaskModel.Sched.FailLemmas
 /-! Trace-level consequences of the local facts: once an activation has left its command
 loop, no later event of it in any accepted continuation starts a non-deferred command, and
 its result and the list of commands it started stay what they are. -/
-namespace TaskModel.Sched
+namespace TaskModel.Sched.S2
 
 /-- the start of a non-deferred entry -/
 def isNDStart : Ev → Bool
@@ -245,4 +245,4 @@ theorem seqResult_one (c : Config) (r' : Res) (h : seqResult c 1 0 = some r') :
         · cases h; exact ⟨id, hid, hr⟩
         · cases h
 
-end TaskModel.Sched
+end TaskModel.Sched.S2
